@@ -143,7 +143,13 @@ class FieldInvariants:
                     names = [f['name'] for f in adt['fields']]
                     if field in names and names.index(field) < len(v[2]):
                         x = v[2][names.index(field)]
-                        out.append(env.av(x) if (x is not None and T.is_int(x)) else AV(bits))
+                        if x is not None and T.is_int(x):
+                            av = env.av(x)
+                            if x[0] == 'o' and ((av.hi == mask(x[1]) and not av.m0) or _relational(x, env)):
+                                av = _exact_bits(x, env) or av
+                            out.append(av)
+                        else:
+                            out.append(AV(bits))
             for x in v[2]:
                 self._agg_field_values(x, owner, field, env, bits, out, depth + 1)
         elif v[0] == 'snap':
@@ -214,7 +220,7 @@ class FieldInvariants:
                     v = e[3]
                     if v is not None and T.is_int(v):
                         av = r.state.env.av(v)
-                        if av.hi == mask(v[1]) and not av.m0 and v[0] == 'o':
+                        if v[0] == 'o' and ((av.hi == mask(v[1]) and not av.m0) or _relational(v, r.state.env)):
                             av = _exact_bits(v, r.state.env) or av
                         out.append(av)
                     else:
@@ -236,6 +242,25 @@ class FieldInvariants:
         return out
 
 
+def _relational(t, env):
+    """is the value constrained by a path condition over a compound (arithmetic) term that shares one of its symbols?
+    Interval evaluation cannot use such a condition; the exact evaluation can"""
+    from .rules.c03 import syms_of
+    if env.av(t).is_const():
+        return False
+    mine = syms_of(t)
+    for kind, c, _ in env.log:
+        if c[0] != 'o' or c[2] not in ('ule', 'ult', 'uge', 'ugt', 'eq', 'ne', 'sle', 'slt', 'sge', 'sgt'):
+            continue
+        for side in c[3:]:
+            x = side
+            while x[0] == 'o' and x[2] in ('zext', 'trunc', 'sext'):
+                x = x[3]
+            if x[0] == 'o' and x[2] in ('add', 'sub', 'mul', 'umin', 'umax', 'shl') and (syms_of(x) & mine):
+                return True
+    return False
+
+
 def _exact_bits(t, env):
     """known-zero / known-one bits of a stored value from its exact bit-level form (used when the interval x known-bits
     evaluation gives nothing, e.g. `1 << TABLE[i]`): an AV with those bits, or None"""
@@ -246,13 +271,32 @@ def _exact_bits(t, env):
         v = conv(t)
     except (Unsupported, RecursionError):
         return None
+    if K == 0:
+        return None
     m0 = m1 = 0
     for i, b in enumerate(v.b):
         if m.AND(K, b) == 0:
             m0 |= 1 << i
         elif m.AND(K, m.NOT(b)) == 0:
             m1 |= 1 << i
-    if not m0 and not m1:
-        return None
+    # exact maximum / minimum of the value under the path condition (bitwise descent from the top bit)
     w = t[1]
-    return AV(w, m1, mask(w) & ~m0, m0, m1)
+    hi = lo = 0
+    sh = sl = K
+    for i in range(len(v.b) - 1, -1, -1):
+        b = v.b[i]
+        x = m.AND(sh, b)
+        if x != 0:
+            sh = x
+            hi |= 1 << i
+        else:
+            sh = m.AND(sh, m.NOT(b))
+        y = m.AND(sl, m.NOT(b))
+        if y != 0:
+            sl = y
+        else:
+            sl = m.AND(sl, b)
+            lo |= 1 << i
+    if not m0 and not m1 and lo == 0 and hi == mask(w):
+        return None
+    return AV(w, max(lo, m1), min(hi, mask(w) & ~m0), m0, m1)
